@@ -136,6 +136,7 @@ def run(R):
     format_error_total(R, "C18.TOTAL")
     common.dependency_elements_typed(R, ro, "C18.TOTAL")
     frame_of_failure(R, ro, "C18.STACK-LIST")
+    reraise_in_handler(R, "C18.GLUE")
     # dump methods: what they format goes through the containing converters, and user hooks (get_priority) are contained
     from .c20 import diag_conversions
     diag_conversions(R, ro, "C18.TOTAL")
@@ -225,8 +226,21 @@ def run(R):
     p = kit.path_avoiding_guard(acfg, task_stores + prep, lambda nd: stamped(nd, False), N)
     R.check(p is None, "C18.GLUE", ae.qualname + ":first", R.site(ae), "the first task to see an error stamps it (_task, prepare_for_reraise) exactly once",
             "an already stamped error can be stamped again", acfg.fmt_path(p) if p else None)
-    R.check(all(q.src(n.ast.value) == "sys.exc_info()[2]" for n in tb_stores) and all(q.src(n.ast.value) == "self" for n in task_stores), "C18.GLUE", ae.qualname + ":values", R.site(ae),
-            "_task is the accepting task and the refreshed traceback is the live one", "the stamped values changed")
+    # the refreshed traceback is the error's own (`error.__traceback__`: what the handler that caught it saw).  sys.exc_info()[2] is
+    # the same object only while that handler is running: it qualifies only when every call of the method sits inside a handler
+    outside = []
+    for m_ in ro.AsyncTask.methods.values():
+        for nd_, c_ in ro.calls_to(m_, [ae]):
+            if c_.args and not any(isinstance(a_, ast.ExceptHandler) for a_ in q.ancestors(c_)):
+                outside.append("%s:%d" % (m_.name, c_.lineno))
+    vals_ = [q.src(n.ast.value) for n in tb_stores]
+    R.check(all(v_ == "%s.__traceback__" % ep or (v_ == "sys.exc_info()[2]" and not outside) for v_ in vals_) and all(q.src(n.ast.value) == "self" for n in task_stores),
+            "C18.GLUE", ae.qualname + ":values", R.site(ae, tb_stores[0].ast),
+            "_task is the accepting task and the refreshed traceback is the error's own (%s)" % ", ".join(sorted(set(vals_))),
+            "the traceback stored on an error that already crossed a task is `%s`, but %s is called after the handler that caught the error has ended (%s): "
+            "sys.exc_info() is empty there (or describes an unrelated exception the caller is handling) - when a context's pause()/resume() hook fails with an "
+            "error that came out of a synchronous asynq call, the whole traceback down to the raising frame is thrown away"
+            % (", ".join(sorted(set(vals_))), ae.name, ", ".join(outside) or "-"))
     # throw with the stored traceback
     step = ro.generator_step_fn()
     ths = [c for n, c in ro.step_sites(step) if q.attr_call(c)[1] == "throw"]
@@ -246,6 +260,21 @@ def run(R):
     rr = [c for c in q.calls(rie.node) if (q.call_name(c) or "").endswith("reraise") and [q.src(a) for a in c.args] == ["self._error"]]
     wt = [n for n in q.scope_nodes(rie.node) if isinstance(n, ast.Raise) and n.exc is not None and "with_traceback" in q.src(n.exc) and "_traceback" in q.src(n.exc)]
     plain = [n for n in q.scope_nodes(rie.node) if isinstance(n, ast.Raise) and n.exc is not None and "with_traceback" not in q.src(n.exc)]
+    if plain:
+        # ... except on the branch for an error whose _type_/_traceback are not asynq's stamp (there is no stored traceback to install)
+        rcfg = cfg_of(rie)
+
+        def foreign(nd):
+            if nd.kind != "test":
+                return None
+            k_, s_, pos_ = q.atom_test(nd.ast)
+            e_ = nd.ast.operand if isinstance(nd.ast, ast.UnaryOp) else nd.ast
+            if k_ == "call" and s_ == "hasattr" and q.src(e_).replace('"', "'") == "hasattr(self._error, '_type_')":
+                return "T" if pos_ else "F"
+            return None
+        pn = [n for n in rcfg.nodes if n.kind == "stmt" and any(n.ast is x for x in plain)]
+        if pn and kit.path_avoiding_guard(rcfg, pn, foreign, N, dead_ok=True) is None:
+            plain = []
     R.check(bool(rr or wt) and not plain, "C18.GLUE", rie.qualname, R.site(rie),
             "raise_if_error raises the stored error with its stored traceback (qcore's reraise)",
             "raise_if_error raises the stored error with `raise`: the traceback is whatever the object accumulated the last time it propagated, so a second "
@@ -876,6 +905,16 @@ def link_recursion(R, ro, rule):
                 "(exec/compile, generated code) inspect yields no source text and the TypeError escapes from format_asynq_stack()")
     R.check(bool(lines), rule, tb.qualname + ":lines", R.site(tb), "traceback() builds its entries with _traceback_line()", "traceback() no longer calls _traceback_line()")
     loops = [w for w in ast.walk(tb.node) if isinstance(w, (ast.While, ast.For))]
+    for w in loops:
+        if isinstance(w, ast.While):
+            k_, s_, pos_ = q.atom_test(w.test)
+            only_chain = (k_ == "isnone" and not pos_) or (isinstance(w.test, ast.Constant) and w.test.value is True)
+            cuts = [x for x in ast.walk(w) if isinstance(x, ast.Break)]
+            early = [x for x in cuts if not any(isinstance(a_, ast.If) and q.atom_test(a_.test)[0] == "isnone" for a_ in q.ancestors(x))]
+            R.check(only_chain and not early, rule, tb.qualname + ":whole-chain", R.site(tb, w),
+                    "the walk over the creators ends only where the chain ends",
+                    "the walk over the creators can stop before the chain ends (`while %s`%s): format_asynq_stack() lists only part of the tasks that created the "
+                    "current one - the outermost ones are silently dropped" % (q.src(w.test)[:60], ", break" if early else ""))
     rec = [c for c in q.calls(tb.node) if q.attr_call(c)[1] == "traceback" and q.attr_call(c)[0] is not None and q.src(q.attr_call(c)[0]) != "self"]
     R.check(bool(loops) or bool(rec), rule, tb.qualname + ":walks-creators", R.site(tb),
             "traceback() visits the creating tasks (%s)" % ("in a loop" if loops else "recursively"),
@@ -983,3 +1022,30 @@ def frame_of_failure(R, ro, rule):
             "the handler overwrites the frame recorded before an error was thrown in with the innermost frame of the traceback: for a task that failed by "
             "letting a delivered error through, that is the frame of whoever raised it - format_asynq_stack() in a task created by it lists the raiser "
             "instead of the creating task", cfg.fmt_path(p) if p else None)
+
+
+def reraise_in_handler(R, rule):
+    """An exception that crosses a library task is re-raised where it was caught: a bare `raise` inside the handler adds no frame.
+    `raise <remembered error>` after the handler has ended re-raises it from a second place: the traceback gets two frames for that
+    one task level."""
+    n = 0
+    for f in R.repo.all_functions():
+        if f.module.name.startswith("tests") or not q.has_yield(f.node):
+            continue
+        for r in [x for x in q.scope_nodes(f.node) if isinstance(x, ast.Raise) and isinstance(x.exc, ast.Name)]:
+            vals = common.assigned_values(f.node, r.exc.id)
+            from_handler = [v for k_, v in vals if k_ == "handler"]
+            via = []
+            for k_, v in vals:
+                if k_ == "expr" and isinstance(v, ast.Name):
+                    via += [h for kk, h in common.assigned_values(f.node, v.id) if kk == "handler"]
+            if not (from_handler or via):
+                continue
+            n += 1
+            inside = any(isinstance(a_, ast.ExceptHandler) and (a_.name == r.exc.id or any(isinstance(h, ast.ExceptHandler) and h is a_ for h in via)) for a_ in q.ancestors(r))
+            R.check(inside, rule, "%s:raise:%s" % (f.qualname, r.exc.id), R.site(f, r),
+                    "`raise %s` re-raises the exception inside the handler that caught it" % r.exc.id,
+                    "%s re-raises a remembered exception (`raise %s`) after the handler that caught it has ended: the traceback of an error that crosses this task "
+                    "gets a second frame for the same level (the raise line and the yield line)" % (f.qualname, r.exc.id))
+    if not n:
+        R.ok(rule, "asynq/", "no library task re-raises a remembered exception outside the handler that caught it")
